@@ -275,6 +275,37 @@ Section Settings.
                   allo anyo oneo no ref dflt title
     end.
 
+  (* a conversion answers for this node, or for some type position below it *)
+  Fixpoint any_hit (s : schema) {struct s} : bool :=
+    match s with
+    | SBool _ => false
+    | SObj ty fmt enum cst nv sv ik items ai mni mxi uq props req ap mnp mxp allo anyo oneo no ref dflt title =>
+        hit (SObj ty fmt enum cst nv sv ik items ai mni mxi uq props req ap mnp mxp allo anyo oneo no ref dflt title)
+        || existsb any_hit items
+        || existsb (fun kv => any_hit (snd kv)) props
+        || match ap with Some a => any_hit a | None => false end
+        || match oneo with Some bs => existsb any_hit bs | None => false end
+        || match anyo with Some bs => existsb any_hit bs | None => false end
+    end.
+
+  (* SIDE CONDITION of the model under settings: no conversion answers for an arm of a union ("oneOf" / "anyOf")
+     or for a position below one.  There the native type becomes the data of an enum variant and the enum's
+     bespoke impls (finalize: UntaggedFromStr / UntaggedDisplay ask the ARMS' types for FromStr / Display) depend
+     on the impls configured for it; [mk_tagged] computes them for the unconverted arms.  A union that is
+     answered AS A WHOLE is fine (it is pruned). *)
+  Fixpoint union_hit_free (s : schema) {struct s} : bool :=
+    match s with
+    | SBool _ => true
+    | SObj ty fmt enum cst nv sv ik items ai mni mxi uq props req ap mnp mxp allo anyo oneo no ref dflt title =>
+        if hit (SObj ty fmt enum cst nv sv ik items ai mni mxi uq props req ap mnp mxp allo anyo oneo no ref dflt title)
+        then true
+        else forallb union_hit_free items
+             && forallb (fun kv => union_hit_free (snd kv)) props
+             && match ap with Some a => union_hit_free a | None => true end
+             && match oneo with Some bs => negb (existsb any_hit bs) | None => true end
+             && match anyo with Some bs => negb (existsb any_hit bs) | None => true end
+    end.
+
   Definition prune_defs (D : defs) : defs :=
     map (fun kv => (fst kv, match replaced (fst kv) with Some _ => SAny | None => prune (snd kv) end)) D.
 
@@ -283,5 +314,6 @@ Section Settings.
   Definition in_frag_s (D : defs) : bool :=
     keys_unique (cs_replace S) && keys_unique (cs_patch S)
     && in_frag cls (prune_defs D)
+    && forallb (fun kv => match replaced (fst kv) with Some _ => true | None => union_hit_free (snd kv) end) D
     && Sanitize.unique (map (fun n => fst (type_patch n)) (all_names cls (prune_defs D))).
 End Settings.
